@@ -73,6 +73,8 @@ StrClauses(o) ==
       ELSE C("PlainRoundTrip"),
       IF \E j \in 1..Len(o.ks) : Crashed(o.conv[j]) \/ Crashed(o.val[j]) THEN C("NonSigmaException")
       ELSE IF \E j \in 1..Len(o.ks) : ConvBad(j) THEN C("TargetDecodes:convert")
+      \* a string object derived from others (concatenation, slice) with the same parts is the same value
+      ELSE IF \E j \in 1..Len(o.ks) : Ok(o.val[j]) /\ (~Ok(o.val2[j]) \/ o.val2[j].out # o.val[j].out) THEN C("TargetDecodes:derived-string-renders-differently")
       ELSE IF \E j \in 1..Len(o.ks) : ValBad(j) THEN C("TargetDecodes:convert_value_str")
       ELSE IF EscDevSeen THEN D("Dev_EscapeCharNotEscaped") ELSE NoC,
       IF ~Ok(o.re_matches) THEN C("RegexSameLanguage:exception")
